@@ -8,21 +8,26 @@ mod util;
 mod hashops;
 mod treeops;
 mod graphops;
+mod protoops;
 
 pub struct Ctx {
     pub hash: hashops::HashCtx,
     pub tree: treeops::TreeCtx,
+    pub proto: protoops::ProtoCtx,
 }
 
 impl Ctx {
     fn new() -> Self {
-        Ctx { hash: hashops::HashCtx::new(), tree: treeops::TreeCtx::new() }
+        Ctx { hash: hashops::HashCtx::new(), tree: treeops::TreeCtx::new(), proto: protoops::ProtoCtx::new() }
     }
     fn exec(&mut self, w: &[&str]) -> String {
         if w.is_empty() {
             return "bad-op".into();
         }
         if let Some(r) = self.hash.exec(w) {
+            return r;
+        }
+        if let Some(r) = self.proto.exec(w) {
             return r;
         }
         if let Some(r) = graphops::exec(w) {
